@@ -8,8 +8,9 @@ from ..rng import Rng
 ASSUMPTIONS = [
     "quiescence is decided by the in-flight counter of the verif hooks; schedules are the release orders of the parked queue (every order the stepped harness draws), "
     "not OS-level interleavings inside one exec",
-    "the reference interpretation covers needs lists over condition branches of the same step; mixed steps, several else branches and needs lists that name waiting branches "
-    "(else / needs) are decided by the monitor and the operational model only",
+    "the reference interpretation covers needs lists over condition branches of the same step and steps with acts beside branches (with an else branch among them only the finished "
+    "flag is compared: when that branch is woken depends on the schedule); several else branches and needs lists that name waiting branches (else / needs) are decided by the monitor "
+    "and the operational model only",
     "timeouts are not generated here (C19); sub-processes and reloads have a small family of their own (a caller waiting for its child, a catch-revived step, dropped from the cache or restarted before the answer)",
 ]
 
@@ -188,6 +189,9 @@ def run(ctx):
         if not isinstance(rf, dict) or not rf.get("in_fragment") or k in flagged or "hooks" in scs[k]["features"] or "answers-mixed" in scs[k]["features"]:
             continue
         for (i, answered, opens, terminal), pt in zip(rq["_pts"], rf.get("points", [])):
+            if rf.get("final_only") and not terminal:
+                # a step with acts beside an else branch: when the else branch is woken depends on the schedule; the finished flag does not
+                continue
             nref += 1
             if sorted(pt["opens"]) != opens or pt["done"] != terminal:
                 ctx.violation("C01|engine-vs-reference", f"after op {i}: engine open interrupts {opens} finished={terminal}; reference opens {sorted(pt['opens'])} done={pt['done']}",
@@ -205,7 +209,7 @@ def run(ctx):
                        "FIFO/LIFO/seeded-random release orders with partial releases, every interrupt answered in seeded order; monitor at every quiescent point; "
                        "non-trivial = some task was pending at a quiescent point; distinct by (model, op prefix)")
     ctx.cov["clauses_proved"] = ["Ref: unfinished => an unanswered interrupt is open (all workflows, conditions, answer sets)", "Ref: all answered => finished; done is monotone"]
-    ctx.cov["clauses_not_proved"] = ["the engine refines Ref (three-way differential at every quiescent point)", "mixed / two-else shapes and needs lists over waiting branches (monitor + Op model only)"]
+    ctx.cov["clauses_not_proved"] = ["the engine refines Ref (three-way differential at every quiescent point)", "two-else shapes, needs lists over waiting branches, intermediate points of steps with acts beside an else branch (monitor + Op model only)"]
 
 
 def reload_and_call_scenarios(seed, n):
